@@ -168,6 +168,10 @@ def axi_contract(cfg):
         byte_at(f(r.data), lane, 2) == G(f, "spec")))
     c.bounded("write_data_present_when_memory_takes_it", lambda f: Implies(f.b(port.wdata.ready), f.b(port.wdata.valid)))
     sc = cfg.get("scenario")
+    if cfg.get("fixed_bursts_single_beat"):
+        # excludes exactly the pattern of known finding C09-rmw-stale-read-inside-a-burst (a later beat of the same burst
+        # re-visiting a native word with partial strobes)
+        c.assume("scenario.fixed_bursts_have_one_beat", lambda f: Implies(f.b(aw.valid), Or(f(aw.burst) != 0, f(aw.len) == 0)))
     if sc in ("write_only", "b_stall"):
         c.assume("scenario.no_reads", lambda f: Not(f.b(ar.valid)))
     if sc == "read_only":
@@ -285,7 +289,8 @@ def tasks(tier):
         (dict(), "read_only", 9, 12, True),
     ]
     if not q:
-        plan += [(dict(base=0x8, wdepth=4, rdepth=4), "single", 0, 16, True), (dict(rmw=True), None, 0, 9, False)]
+        plan += [(dict(base=0x8, wdepth=4, rdepth=4), "single", 0, 16, True), (dict(rmw=True), None, 0, 9, False),
+                 (dict(rmw=True, base=0x10, fixed_bursts_single_beat=True), "single", 0, 16, True)]
     for cfg in [dict(address_width=16), dict(address_width=32)][:1 if q else 2]:
         out.append(dict(fn="burst2beat_contract", cfg=cfg, modes=["inductive", "cover", "difftest"], weight=10, difftest_cycles=100))
     for cfg, sc, dq, dt, one in plan:
